@@ -41,6 +41,8 @@ type Case struct {
 	// plain io.Reader that hands out at most k octets per Read (odd k: io.EOF together with the
 	// last octets) - pipes, sockets and HTTP bodies deliver short reads, bytes.Reader never does.
 	Src int `json:"src,omitempty"`
+	// Spare: the payload slice has 2*rs+64 octets of capacity behind its length (filled with 0xA5).
+	Spare bool `json:"spare,omitempty"`
 }
 
 func filler(seed int64, n int) []byte {
@@ -125,8 +127,32 @@ func check(c Case, r *vh.R) {
 	}
 
 	// --- encode, compare with the reference
+	// The payload is handed over as a slice with spare capacity behind its length (a prefix of a
+	// larger array, as data[:n], append-grown slices, bytes.Buffer.Bytes() and io.ReadAll results
+	// are): the octets behind len(p) are not payload and must be neither read nor written.
+	spare := 0
+	if c.Spare {
+		spare = 2*rs + 64
+		r.Class("payload-with-spare-capacity")
+	}
+	backing := make([]byte, len(p)+spare)
+	for i := range backing {
+		backing[i] = 0xA5
+	}
+	copy(backing, p)
+	arg := backing[:len(p)]
 	var buf bytes.Buffer
-	digest, err := enc.Encode(&buf, p, rs)
+	digest, err := enc.Encode(&buf, arg, rs)
+	if !bytes.Equal(backing[:len(p)], p) {
+		r.Failf("input-modified", "%s.Encode(payload of %d octets, rs=%d) changed the caller's payload", enc, len(p), rs)
+		return
+	}
+	for _, x := range backing[len(p):] {
+		if x != 0xA5 {
+			r.Failf("input-slice-overrun", "%s.Encode(payload of %d octets, rs=%d) wrote into the spare capacity behind the caller's payload slice", enc, len(p), rs)
+			return
+		}
+	}
 	if err != nil {
 		r.Failf("encode-error", "%s.Encode(payload of %d octets, rs=%d) failed: %v", enc, len(p), rs, err)
 		return
@@ -299,7 +325,7 @@ func TestExhaustive(t *testing.T) {
 						for _, pat := range readPatterns(rs) {
 							n++
 							src := []int{0, 1, 2, 7, 8, 9, 512}[n%7]
-							if !exhProp.One(t, Case{Draft: draft, RS: rs, Len: l, Payload: p, MaxRS: max, Reads: pat, Src: src}) {
+							if !exhProp.One(t, Case{Draft: draft, RS: rs, Len: l, Payload: p, MaxRS: max, Reads: pat, Src: src, Spare: n%2 == 0}) {
 								return
 							}
 						}
@@ -313,7 +339,7 @@ func TestExhaustive(t *testing.T) {
 										continue
 									}
 									n++
-									if !exhProp.One(t, Case{Draft: draft, RS: rs, Len: l, Payload: p, MaxRS: 16384, Reads: []int{first}, Drain: drain, DrainAfter: after, Src: []int{0, 1, 3, 33}[n%4]}) {
+									if !exhProp.One(t, Case{Draft: draft, RS: rs, Len: l, Payload: p, MaxRS: 16384, Reads: []int{first}, Drain: drain, DrainAfter: after, Src: []int{0, 1, 3, 33}[n%4], Spare: n%3 == 0}) {
 										return
 									}
 								}
@@ -403,6 +429,7 @@ func TestPropRoundTrip(t *testing.T) {
 		sz := rapid.SampledFrom([]int{1, c.RS - 1, c.RS, c.RS + 33, 65536, 0, 7, 2*c.RS + 1})
 		c.Reads = rapid.SliceOfN(sz, 1, 6).Draw(t, "reads")
 		c.Src = gen.DrawSourceMode(t, "src")
+		c.Spare = rapid.Bool().Draw(t, "spare")
 		if c.Len > 20000 && c.Src > 0 && c.Src < 8 {
 			c.Src = 4097
 		}
